@@ -1337,3 +1337,127 @@ def rule_emission_purity(ctx, g, rid):
             else:
                 ctx.ok(rid, key, "controlled only by its own field / loops / errors")
     ctx.floor(rid, "record_emission_sites", n, 80)
+
+
+def _callee_chain(b, o, limit=60):
+    """callee names on the backward def chain of operand o (intraprocedural)"""
+    names, work, seen = set(), [o], set()
+    while work and len(seen) < limit:
+        x = work.pop()
+        q = (x.get("cp") or x.get("mv")) if isinstance(x, dict) else None
+        if q is None or q["l"] in seen:
+            continue
+        seen.add(q["l"])
+        for d in b.defs.get(q["l"], []):
+            if d[2] == "call":
+                names.add(callee_name(d[3]) or "")
+                work.extend(d[3]["args"])
+            elif d[2] == "assign":
+                rv = d[3]["rv"]
+                for k in ("o", "l", "r"):
+                    if k in rv and isinstance(rv[k], dict):
+                        work.append(rv[k])
+                if rv["k"] in ("ref", "rawptr", "len", "discr"):
+                    work.append({"cp": rv["p"]})
+    return names
+
+
+def rule_string_padding(ctx, g, rid):
+    """the NUL pad of a string record is decided by the string's BYTE length — the quantity the record header counts"""
+    from analysis import ctrl
+    ctx.rule(rid, "a string payload is padded with one NUL exactly when its byte length is odd: the pad decision derives from the byte length (str::len / as_bytes().len()), the same quantity the header's length field is computed from — never from a character count")
+    F = ctx.F
+    n = 0
+    for f in F.fns.values():
+        if not f.id.startswith("gds21::write::"):
+            continue
+        b = Body(f)
+        for bi, t in b.calls():
+            nm = callee_name(t) or ""
+            if not re.search(r"WriteBytesExt::write_u8$|io::Write::write_all$", nm) or len(t["args"]) < 2:
+                continue
+            c = b.const_of(t["args"][1])
+            if not (c and c.get("int") == 0):
+                continue
+            # the tests deciding this write
+            decided_by = set()
+            rems = 0
+            for sw in ctrl.controlling_switches(b, bi):
+                tt = b.term(sw)
+                names = _callee_chain(b, tt["on"])
+                rv = b.def_rvalue(tt["on"])
+                # look for `x % 2` on the chain
+                chain_has_rem = False
+                work, seen = [tt["on"]], set()
+                while work and len(seen) < 40:
+                    x = work.pop()
+                    q = (x.get("cp") or x.get("mv")) if isinstance(x, dict) else None
+                    if q is None or q["l"] in seen:
+                        continue
+                    seen.add(q["l"])
+                    for d in b.defs.get(q["l"], []):
+                        if d[2] == "assign":
+                            r2 = d[3]["rv"]
+                            if r2["k"] == "bin" and r2["op"] == "Rem":
+                                chain_has_rem = True
+                            for k in ("o", "l", "r"):
+                                if k in r2 and isinstance(r2[k], dict):
+                                    work.append(r2[k])
+                if chain_has_rem:
+                    rems += 1
+                    decided_by |= names
+            if not rems:
+                continue
+            n += 1
+            key = "%s/pad" % f.short
+            bytelen = any(re.search(r"str::<impl str>::len$|String::len$|slice::<impl \[T\]>::len$|::as_bytes$", x) for x in decided_by)
+            charlen = [x for x in decided_by if re.search(r"::chars$|Iterator::count$|::char_indices$|::count$", x)]
+            if charlen or not bytelen:
+                ctx.violation(rid, key, "%s decides the NUL pad of a string from %s instead of its byte length: the header counts bytes, so for text whose byte and character counts differ in parity the record is mis-framed and the rest of the stream cannot be read" % (
+                    f.short, ", ".join(sorted(x.split("::")[-1] for x in charlen)) or "something other than the byte length"), b.site(bi), key)
+            else:
+                ctx.ok(rid, key, "pad decided by the byte length")
+    ctx.floor(rid, "string_pad_sites", n, 1)
+
+
+NUMERIC_XFORM = re.compile(r"::(rem_euclid|div_euclid|abs|round|floor|ceil|trunc|fract|clamp|signum|to_radians|to_degrees|sqrt|powi|powf|mul_add|recip|wrapping_\w+|saturating_\w+|checked_\w+|overflowing_\w+|rotate_left|rotate_right|swap_bytes|to_be|to_le|reverse_bits)$|ops::(Add|Sub|Mul|Div|Rem|Neg)(<.*>)?>::(add|sub|mul|div|rem|neg)$")
+
+
+def rule_payload_verbatim(ctx, g, rid):
+    """C01/C03: what a parser stores is the decoded payload itself — no arithmetic on the way from the record to the field"""
+    from analysis import ctrl
+    ctx.rule(rid, "the element parsers store record payloads as decoded: no arithmetic (normalisation, scaling, rounding, sign change) is applied between a record's payload and the field it is stored in")
+    F = ctx.F
+    n_fn = 0
+    for f in F.fns.values():
+        if not f.id.startswith("gds21::read::") or "GdsParser" not in f.short or f.kind == "Closure":
+            continue
+        b = Body(f)
+        n_fn += 1
+
+        def from_payload(ops):
+            for q in ctrl.slice_paths(b, ops):
+                if any(str(x).startswith("as ") for x in q[1]):
+                    return True
+            return False
+        hits = []
+        for bi, blk in enumerate(b.blocks):
+            if blk["cleanup"] or bi not in b.reachable:
+                continue
+            for st in blk["st"]:
+                if st["k"] != "assign":
+                    continue
+                rv = st["rv"]
+                if rv["k"] == "bin" and rv["op"].replace("WithOverflow", "").replace("Unchecked", "") in ("Add", "Sub", "Mul", "Div", "Rem") and from_payload([rv["l"], rv["r"]]):
+                    hits.append((bi, rv["op"]))
+                if rv["k"] == "un" and rv["op"] == "Neg" and from_payload([rv["o"]]):
+                    hits.append((bi, "Neg"))
+            t = blk["term"]
+            if t["k"] == "call" and NUMERIC_XFORM.search(callee_name(t) or "") and from_payload(t["args"]):
+                hits.append((bi, (callee_name(t) or "").split("::")[-1]))
+        if hits:
+            key = "%s/arith" % f.short
+            ctx.violation(rid, key, "%s applies %s to a record payload before storing it: the library read differs from the library written (e.g. an angle of -90 comes back as 270)" % (f.short, ", ".join(sorted({h[1] for h in hits}))), b.site(hits[0][0]), key)
+        else:
+            ctx.ok(rid, f.short, "payloads stored as decoded")
+    ctx.floor(rid, "parser_functions", n_fn, 10)
